@@ -480,8 +480,7 @@ def execute(arg):
     sim = Sim(arg["run_seed"], tape=arg.get("tape"), strict=arg.get("strict", False))
     if arg.get("plan_retries"):
         sim.count("plan_generation_retries", arg["plan_retries"])
-    install_seams(arg["run_seed"])
-    _pin_clock()
+    install_seams(arg["run_seed"])      # includes the clock seam (simkit/clock.py)
     root = os.path.join(lanes.scratch_root(), "fs")
     fs = simfs.SimFS(root, sim, bufsize=plan.get("bufsize", 8192))
     fs.install()
@@ -613,22 +612,6 @@ def execute(arg):
     if arg.get("want_log"):
         out["log"] = [list(map(str, e)) for e in sim.log[-400:]]
     return out
-
-
-def _pin_clock():
-    """read_swan substitutes datetime.now() for files without time stamps: pin it."""
-    import datetime as _dt
-
-    import wavespectra.input.swan as sw
-
-    class _Clock:
-        datetime = type("datetime", (_dt.datetime,), {"now": classmethod(lambda cls, tz=None: cls(2000, 1, 1, 0, 0, 0))})
-        timedelta = _dt.timedelta
-
-        def __getattr__(self, name):
-            return getattr(_dt, name)
-
-    sw.datetime = _Clock()
 
 
 # =======================================================================================
